@@ -92,7 +92,9 @@ EXC_POOL: Dict[str, Any] = {
 class Trace:
     def __init__(self) -> None:
         self.ev: List[Dict[str, Any]] = []
-        self.lock = threading.Lock()
+        # re-entrant: a generator dependency that is garbage-collected while add() allocates runs its
+        # clean-up code, which records an event from inside add()
+        self.lock = threading.RLock()
         self.loop: Any = None
         self.now: Any = None  # optional callable (real-time runs)
 
